@@ -20,7 +20,8 @@ sys.path.insert(0, os.path.join(ROOT, "tools"))
 sys.path.insert(0, os.path.join(ROOT, "bin"))
 from mutants import M  # noqa: E402
 
-REPO = "/repo"
+# the tree the checks build: /repo, or a scratch worktree when run from a copy made by tools/mkcopy.sh
+REPO = os.environ.get("VERIF_TARGET_REPO", "/repo")
 
 
 def sh(cmd, **kw):
